@@ -14,10 +14,15 @@ The code holds `best_*_loss` as a float (initially `jnp.inf`) and tests
   transfer (`pRunF_fin_spec`, `trainLoopF_fin_terminates`);
 * `nan_never_improves`, `pinf_never_improves`: a NaN / +inf loss never changes the best loss or the
   best model and increments the counter, in EVERY state and for every `min_delta`;
-* `pRunF_spec_nan`: on an arbitrary history (NaN / +inf anywhere; only `-inf` is excluded) the
-  machine tracks the best of the FINITE sub-history, counts NaN / +inf epochs as non-improving
-  epochs (`trailingF`), and remembers the epoch of the last finite improvement (`argBestF`);
-  `stopF_true_iff`, `bestF_is_loss_of_argBestF`, `trainLoopF_terminates`;
+* `pRunF_spec_nan`: on an arbitrary history over the FULL alphabet {finite, NaN, +inf, -inf} the
+  machine tracks `bestFV` (the best of the FINITE sub-history until the first `-inf`, `-inf` from
+  then on), counts NaN / +inf epochs — and every epoch after a `-inf` — as non-improving epochs
+  (`trailingF`), and remembers the epoch of the last improvement (`argBestF`);
+  `stopF_true_iff`, `stopF_true_iff_full`, `bestF_is_loss_of_argBestF`, `trainLoopF_terminates`;
+* `ninf_improves`, `after_ninf_nothing_improves`, `ninf_is_final_best`: a `-inf` loss is taken as the
+  new best from every finite / `+inf` best; once the best is `-inf` no loss (not even another `-inf`)
+  improves, for every `min_delta`; the loop stops exactly `patience + 1` epochs after the first
+  `-inf` epoch and hands back the model of that epoch;
 * `nan_tail_terminates`, `nan_tail_stops`: a history that is NaN / +inf from some epoch on stops
   after `patience + 1 - counter` further epochs and returns the best finite-loss model seen before;
 * `ge_variant_diverges_on_nan`: the restructured test `if loss >= best - min_delta: count … else:
@@ -53,11 +58,6 @@ theorem FV.fin_sub_fin (x y : Q) : (FV.fin x - FV.fin y : FV Q) = FV.fin (x - y)
 
 omit [LT Q] [DecidableLT Q] in
 theorem FV.pinf_sub_fin (y : Q) : (FV.pinf - FV.fin y : FV Q) = FV.pinf := rfl
-
-/-- `none` (nothing tracked yet) is the code's `jnp.inf`. -/
-def toFV : Option Q → FV Q
-  | none => .pinf
-  | some b => .fin b
 
 /-- the float-shaped state that corresponds to an `Option`-shaped state -/
 def PState.toF (s : PState Q) : FState Q :=
@@ -200,80 +200,140 @@ theorem hist_reverse_getElem? {A : Type} (loss : Nat → A) (n i : Nat) (hi : i 
 section Spec
 variable {Q : Type} [LT Q] [DecidableLT Q] [Sub Q]
 
-/-- The float-shaped state agrees with the spec of a history (newest first) that skips non-finite
-entries for "best" and counts them for "trailing". -/
+/-- The float-shaped state agrees with the spec of a history (newest first) over the full alphabet:
+"best" is `bestFV` (`-inf` once a `-inf` has been seen, else the best of the finite sub-history),
+non-improving epochs are counted by `trailingF`. -/
 structure RelF (delta : Q) (m0 : Option Nat) (s : FState Q) (past : List (FV Q)) : Prop where
-  best : s.best = toFV (bestOfF delta past)
+  best : s.best = bestFV delta past
   since : s.since = trailingF delta past
   model : s.bestModel = if argBestF delta past = 0 then m0 else some (argBestF delta past)
 
 theorem relF_init (delta : Q) (m0 : Option Nat) : RelF delta m0 (FState.init m0) [] :=
   ⟨rfl, rfl, rfl⟩
 
-/-- The code's float test against the tracked best is the spec's "finite and improves on the best
-finite loss so far"; `-inf` is the only excluded value. -/
-theorem lt_sub_iff_improvesF (delta : Q) (x : FV Q) (hx : x ≠ .ninf) (past : List (FV Q)) :
-    (x < toFV (bestOfF delta past) - FV.fin delta) ↔ improvesF delta x past = true := by
-  cases x with
-  | nan => simp [improvesF, FV.not_nan_lt]
-  | pinf => simp [improvesF, FV.not_pinf_lt]
-  | ninf => exact absurd rfl hx
-  | fin q => exact fin_lt_sub_iff delta q _
+omit [LT Q] [DecidableLT Q] [Sub Q] in
+theorem hasNinf_cons_of_true (x : FV Q) (past : List (FV Q)) (h : hasNinf past = true) :
+    hasNinf (x :: past) = true := by
+  cases x <;> simp [hasNinf, h]
 
-theorem improvesF_fin_of_true (delta : Q) (x : FV Q) (past : List (FV Q))
-    (h : improvesF delta x past = true) : ∃ q, x = .fin q := by
+omit [LT Q] [DecidableLT Q] [Sub Q] in
+theorem hasNinf_cons_of_ne (x : FV Q) (past : List (FV Q)) (hx : x ≠ .ninf) :
+    hasNinf (x :: past) = hasNinf past := by
   cases x with
-  | fin q => exact ⟨q, rfl⟩
+  | ninf => exact absurd rfl hx
+  | nan => rfl
+  | pinf => rfl
+  | fin q => rfl
+
+/-- Once a `-inf` has been seen, no loss improves (spec side). -/
+theorem improvesF_false_of_hasNinf (delta : Q) (x : FV Q) (past : List (FV Q))
+    (h : hasNinf past = true) : improvesF delta x past = false := by
+  cases x <;> simp [improvesF, h]
+
+theorem bestFV_of_hasNinf (delta : Q) (h : List (FV Q)) (hn : hasNinf h = true) :
+    bestFV delta h = .ninf := by
+  simp [bestFV, hn]
+
+theorem bestFV_of_not_hasNinf (delta : Q) (h : List (FV Q)) (hn : hasNinf h = false) :
+    bestFV delta h = toFV (bestOfF delta h) := by
+  simp [bestFV, hn]
+
+/-- The code's float test against the tracked best is the spec's `improvesF`, for EVERY loss value:
+finite, NaN, +inf and -inf. -/
+theorem lt_sub_iff_improvesF (delta : Q) (x : FV Q) (past : List (FV Q)) :
+    (x < bestFV delta past - FV.fin delta) ↔ improvesF delta x past = true := by
+  by_cases hn : hasNinf past = true
+  · rw [bestFV_of_hasNinf delta past hn, improvesF_false_of_hasNinf delta x past hn]
+    have : (FV.ninf - FV.fin delta : FV Q) = FV.ninf := rfl
+    rw [this]
+    simp [FV.not_lt_ninf]
+  · have hn' : hasNinf past = false := by simpa using hn
+    rw [bestFV_of_not_hasNinf delta past hn']
+    cases x with
+    | nan => simp [improvesF, FV.not_nan_lt]
+    | pinf => simp [improvesF, FV.not_pinf_lt]
+    | ninf =>
+      have : (FV.ninf : FV Q) < toFV (bestOfF delta past) - FV.fin delta := by
+        cases bestOfF delta past <;> exact trivial
+      simp [improvesF, hn', this]
+    | fin q =>
+      rw [show bestOfF delta past = bestOf delta (finPart past) from rfl, fin_lt_sub_iff]
+      simp [improvesF, hn']
+
+/-- Only a finite loss or a `-inf` loss can improve, and only while no `-inf` has been seen. -/
+theorem improvesF_cases_of_true (delta : Q) (x : FV Q) (past : List (FV Q))
+    (h : improvesF delta x past = true) :
+    hasNinf past = false ∧ ((∃ q, x = .fin q) ∨ x = .ninf) := by
+  cases x with
+  | fin q => simp [improvesF] at h; exact ⟨h.1, Or.inl ⟨q, rfl⟩⟩
+  | ninf => simp [improvesF] at h; exact ⟨h, Or.inr rfl⟩
   | nan => simp [improvesF] at h
   | pinf => simp [improvesF] at h
-  | ninf => simp [improvesF] at h
 
-theorem bestOfF_cons_of_improves (delta : Q) (q : Q) (past : List (FV Q))
-    (h : improvesF delta (.fin q) past = true) : bestOfF delta (.fin q :: past) = some q := by
-  have h' : improves delta q (bestOf delta (finPart past)) = true := h
-  simp [bestOfF, finPart, bestOf, h']
-
-theorem bestOfF_cons_of_not (delta : Q) (x : FV Q) (past : List (FV Q))
+theorem bestOfF_cons_of_not (delta : Q) (x : FV Q) (past : List (FV Q)) (hn : hasNinf past = false)
     (h : improvesF delta x past = false) : bestOfF delta (x :: past) = bestOfF delta past := by
   cases x with
   | fin q =>
-    have h' : improves delta q (bestOf delta (finPart past)) = false := h
+    have h' : improves delta q (bestOf delta (finPart past)) = false := by
+      simpa [improvesF, hn] using h
     simp [bestOfF, finPart, bestOf, h']
   | nan => rfl
   | pinf => rfl
   | ninf => rfl
 
-/-- One call with a loss that is not `-inf` keeps the relation; its verdict is "more than
-`patience` trailing non-improving epochs, NaN / +inf epochs included". -/
+/-- An improving loss becomes the tracked best. -/
+theorem bestFV_cons_of_improves (delta : Q) (x : FV Q) (past : List (FV Q))
+    (h : improvesF delta x past = true) : bestFV delta (x :: past) = x := by
+  obtain ⟨hn, ⟨q, rfl⟩ | rfl⟩ := improvesF_cases_of_true delta x past h
+  · have h' : improves delta q (bestOf delta (finPart past)) = true := by
+      simpa [improvesF, hn] using h
+    have h1 : hasNinf (FV.fin q :: past) = false := hn
+    rw [bestFV_of_not_hasNinf delta _ h1]
+    simp [bestOfF, finPart, bestOf, h', toFV]
+  · exact bestFV_of_hasNinf delta _ rfl
+
+/-- A non-improving loss leaves the tracked best alone. -/
+theorem bestFV_cons_of_not (delta : Q) (x : FV Q) (past : List (FV Q))
+    (h : improvesF delta x past = false) : bestFV delta (x :: past) = bestFV delta past := by
+  by_cases hn : hasNinf past = true
+  · rw [bestFV_of_hasNinf delta past hn, bestFV_of_hasNinf delta _ (hasNinf_cons_of_true x past hn)]
+  · have hn' : hasNinf past = false := by simpa using hn
+    have hx : x ≠ .ninf := by
+      rintro rfl
+      simp [improvesF, hn'] at h
+    rw [bestFV_of_not_hasNinf delta past hn',
+      bestFV_of_not_hasNinf delta _ (by rw [hasNinf_cons_of_ne x past hx]; exact hn'),
+      bestOfF_cons_of_not delta x past hn' h]
+
+/-- One call with ANY loss (finite, NaN, +inf, -inf) keeps the relation; its verdict is "more than
+`patience` trailing non-improving epochs". -/
 theorem pStepF_relF (patience : Nat) (delta : Q) (m0 : Option Nat) (s : FState Q)
-    (past : List (FV Q)) (x : FV Q) (hx : x ≠ .ninf) (h : RelF delta m0 s past) :
+    (past : List (FV Q)) (x : FV Q) (h : RelF delta m0 s past) :
     RelF delta m0 (pStepF patience (.fin delta) s (past.length + 1) (some x)).1 (x :: past) ∧
       (pStepF patience (.fin delta) s (past.length + 1) (some x)).2
         = decide (trailingF delta (x :: past) > patience) := by
   unfold pStepF
   by_cases hi : improvesF delta x past = true
   · have h1 : x < s.best - FV.fin delta := by
-      rw [h.best]; exact (lt_sub_iff_improvesF delta x hx past).2 hi
-    obtain ⟨q, rfl⟩ := improvesF_fin_of_true delta x past hi
+      rw [h.best]; exact (lt_sub_iff_improvesF delta x past).2 hi
     simp only [h1, if_true]
     refine ⟨⟨?_, ?_, ?_⟩, ?_⟩
-    · simp [bestOfF_cons_of_improves delta q past hi, toFV]
+    · simp [bestFV_cons_of_improves delta x past hi]
     · simp [trailingF, hi]
     · simp [argBestF, hi]
     · simp [trailingF, hi]
   · have hi' : improvesF delta x past = false := by simpa using hi
     have h1 : ¬ (x < s.best - FV.fin delta) := by
-      rw [h.best]; exact fun hlt => hi ((lt_sub_iff_improvesF delta x hx past).1 hlt)
+      rw [h.best]; exact fun hlt => hi ((lt_sub_iff_improvesF delta x past).1 hlt)
     simp only [h1, if_false]
     refine ⟨⟨?_, ?_, ?_⟩, ?_⟩
-    · simp [bestOfF_cons_of_not delta x past hi', h.best]
+    · simp [bestFV_cons_of_not delta x past hi', h.best]
     · simp [trailingF, hi', h.since]
     · simp [argBestF, hi', h.model]
     · simp [trailingF, hi', h.since]
 
 /-- Generalised form of `pRunF_spec_nan` (any already consumed history `past`). -/
-theorem pRunF_rel (patience : Nat) (delta : Q) (m0 : Option Nat) (h : List (FV Q))
-    (hn : ∀ x ∈ h, x ≠ FV.ninf) :
+theorem pRunF_rel (patience : Nat) (delta : Q) (m0 : Option Nat) (h : List (FV Q)) :
     ∀ (s : FState Q) (past : List (FV Q)), RelF delta m0 s past →
       RelF delta m0 (pRunF patience (.fin delta) s (past.length + 1) (h.map some)).1
           (h.reverse ++ past) ∧
@@ -284,8 +344,8 @@ theorem pRunF_rel (patience : Nat) (delta : Q) (m0 : Option Nat) (h : List (FV Q
   | nil => intro s past hr; exact ⟨by simpa [pRunF] using hr, by simp [pRunF]⟩
   | cons x xs ih =>
     intro s past hr
-    obtain ⟨hr', hv⟩ := pStepF_relF patience delta m0 s past x (hn x (List.mem_cons_self ..)) hr
-    have := ih (fun y hy => hn y (List.mem_cons_of_mem _ hy))
+    obtain ⟨hr', hv⟩ := pStepF_relF patience delta m0 s past x hr
+    have := ih
       (pStepF patience (.fin delta) s (past.length + 1) (some x)).1 (x :: past) hr'
     simp only [List.length_cons] at this
     obtain ⟨h1, h2⟩ := this
@@ -297,29 +357,29 @@ theorem pRunF_rel (patience : Nat) (delta : Q) (m0 : Option Nat) (h : List (FV Q
       simp [Function.comp_def]
 
 /-- **pRunF_spec_nan.**  Drive the machine as the code initialises it (`best = inf`) through an
-ARBITRARY chronological history `h` of losses — finite values, NaN and `+inf` anywhere (`-inf` is
-the only excluded value) — with a finite `min_delta`.  Afterwards
-* its best loss is the tracked best of the FINITE sub-history (`inf` if there is no finite loss),
-* its counter is `trailingF`: the number of epochs since the last finite improvement, NaN / +inf
-  epochs counted as non-improving epochs,
+ARBITRARY chronological history `h` of losses — finite values, NaN, `+inf` and `-inf` anywhere —
+with a finite `min_delta`.  Afterwards
+* its best loss is `bestFV`: `-inf` if a `-inf` loss has been seen, otherwise the tracked best of
+  the FINITE sub-history (`inf` if there is no finite loss),
+* its counter is `trailingF`: the number of epochs since the last improvement, NaN / +inf epochs
+  and all epochs after the first `-inf` counted as non-improving epochs,
 * its `best_model` is the model of epoch `argBestF` (position in the full history of the last
-  finite improvement), the initial `m0` if there was none,
+  improvement: the first `-inf` epoch if there is one), the initial `m0` if there was none,
 * the `i`-th verdict is `trailingF (first i+1 losses) > patience`. -/
-theorem pRunF_spec_nan (patience : Nat) (delta : Q) (m0 : Option Nat) (h : List (FV Q))
-    (hn : ∀ x ∈ h, x ≠ FV.ninf) :
+theorem pRunF_spec_nan (patience : Nat) (delta : Q) (m0 : Option Nat) (h : List (FV Q)) :
     (pRunF patience (.fin delta) (FState.init m0) 1 (h.map some)).1
-        = { best := toFV (bestOf delta (finPart h.reverse)), since := trailingF delta h.reverse,
+        = { best := bestFV delta h.reverse, since := trailingF delta h.reverse,
             bestModel := if argBestF delta h.reverse = 0 then m0
                          else some (argBestF delta h.reverse) } ∧
       (pRunF patience (.fin delta) (FState.init m0) 1 (h.map some)).2
         = (List.range h.length).map
             (fun i => decide (trailingF delta (h.take (i + 1)).reverse > patience)) := by
-  obtain ⟨hr, hv⟩ := pRunF_rel patience delta m0 h hn _ [] (relF_init delta m0)
+  obtain ⟨hr, hv⟩ := pRunF_rel patience delta m0 h _ [] (relF_init delta m0)
   simp only [List.length_nil, Nat.zero_add, List.append_nil] at hr hv
   refine ⟨?_, hv⟩
   generalize (pRunF patience (.fin delta) (FState.init m0) 1 (h.map some)).1 = s at hr
   cases s
-  simpa [bestOfF] using ⟨hr.best, hr.since, hr.model⟩
+  simpa using ⟨hr.best, hr.since, hr.model⟩
 
 /-! #### The spec on all-finite histories is the ordinary one. -/
 
@@ -329,9 +389,15 @@ theorem finPart_map_fin (h : List Q) : finPart (h.map FV.fin) = h := by
   | nil => rfl
   | cons x xs ih => simp [finPart, ih]
 
+omit [LT Q] [DecidableLT Q] [Sub Q] in
+theorem hasNinf_map_fin (h : List Q) : hasNinf (h.map FV.fin) = false := by
+  induction h with
+  | nil => rfl
+  | cons x xs ih => simpa [hasNinf] using ih
+
 theorem improvesF_map_fin (delta : Q) (x : Q) (h : List Q) :
     improvesF delta (.fin x) (h.map FV.fin) = improves delta x (bestOf delta h) := by
-  simp [improvesF, finPart_map_fin]
+  simp [improvesF, finPart_map_fin, hasNinf_map_fin]
 
 theorem trailingF_map_fin (delta : Q) (h : List Q) :
     trailingF delta (h.map FV.fin) = trailing delta h := by
@@ -382,64 +448,98 @@ theorem le_trailingF_iff (delta : Q) (h : List (FV Q)) (k : Nat) :
           intro i hi x past hd
           exact hall (i + 1) (Nat.succ_lt_succ hi) x past (by simpa using hd)
 
-/-- **stopF_true_iff** (`stop_true_iff` for histories with NaN / +inf).  After any history `h`
+/-- **stopF_true_iff** (`stop_true_iff` for histories over the full alphabet).  After any history `h`
 (newest first) the verdict of the last call is `true` iff each of the last `patience + 1` epochs
-either had a NaN / +inf loss or a finite loss that failed to improve, by more than `min_delta`, on
-the best finite loss before it. -/
+failed to improve (`improvesF … = false`; spelled out per kind of loss in `stopF_true_iff_full`). -/
 theorem stopF_true_iff (patience : Nat) (delta : Q) (h : List (FV Q)) :
     trailingF delta h > patience ↔
       patience + 1 ≤ h.length ∧ ∀ i, i < patience + 1 → ∀ x past, h.drop i = x :: past →
         improvesF delta x past = false :=
   le_trailingF_iff delta h (patience + 1)
 
-/-- what `improvesF x past = false` says -/
+/-- what `improvesF x past = false` says, over the full alphabet {fin, nan, +inf, -inf}: the loss is
+NaN, or `+inf`, or a `-inf` has been seen before it (then nothing improves, whatever `x` is — also
+another `-inf`), or it is finite and fails to improve on the best finite loss before it. -/
 theorem improvesF_false_iff (delta : Q) (x : FV Q) (past : List (FV Q)) :
     improvesF delta x past = false ↔
-      (x = .nan ∨ x = .pinf ∨ x = .ninf) ∨
-        ∃ q, x = .fin q ∧ improves delta q (bestOfF delta past) = false := by
+      (x = .nan ∨ x = .pinf ∨ hasNinf past = true ∨
+        ∃ q, x = .fin q ∧ improves delta q (bestOfF delta past) = false) := by
   cases x with
-  | fin q => simp [improvesF, bestOfF]
+  | fin q =>
+    by_cases hn : hasNinf past = true
+    · simp [improvesF, hn]
+    · have hn' : hasNinf past = false := by simpa using hn
+      simp [improvesF, bestOfF, hn']
   | nan => simp [improvesF]
   | pinf => simp [improvesF]
   | ninf => simp [improvesF]
 
-/-- **bestF_is_loss_of_argBestF.**  Either no finite loss has been seen (`argBestF = 0`: the
-initial model is kept), or `argBestF` is an epoch of the history whose loss is finite and IS the
-tracked best of the finite sub-history. -/
+/-- **stopF_true_iff_full.**  The spec of the verdict over the FULL alphabet {fin, nan, +inf, -inf}:
+after any history `h` (newest first) the last call returns `true` iff there have been at least
+`patience + 1` epochs and each of the last `patience + 1` of them
+* had a NaN loss, or
+* had a `+inf` loss, or
+* came after a `-inf` loss (whatever its own loss: finite, `-inf` again, …), or
+* had a finite loss that failed to improve, by more than `min_delta`, on the best finite loss
+  before it.
+(In particular a `-inf` loss with no `-inf` before it is always an improvement.) -/
+theorem stopF_true_iff_full (patience : Nat) (delta : Q) (h : List (FV Q)) :
+    trailingF delta h > patience ↔
+      patience + 1 ≤ h.length ∧ ∀ i, i < patience + 1 → ∀ x past, h.drop i = x :: past →
+        (x = .nan ∨ x = .pinf ∨ hasNinf past = true ∨
+          ∃ q, x = .fin q ∧ improves delta q (bestOfF delta past) = false) := by
+  rw [stopF_true_iff]
+  constructor
+  · rintro ⟨hl, hall⟩
+    exact ⟨hl, fun i hi x past hd => (improvesF_false_iff delta x past).1 (hall i hi x past hd)⟩
+  · rintro ⟨hl, hall⟩
+    exact ⟨hl, fun i hi x past hd => (improvesF_false_iff delta x past).2 (hall i hi x past hd)⟩
+
+/-- **bestF_is_loss_of_argBestF.**  Either nothing has improved yet (`argBestF = 0`: no finite and no
+`-inf` loss seen, the initial model is kept), or `argBestF` is an epoch of the history whose loss IS
+the tracked best `bestFV` — a finite value, or `-inf`. -/
 theorem bestF_is_loss_of_argBestF (delta : Q) (h : List (FV Q)) :
-    (argBestF delta h = 0 ∧ finPart h = []) ∨
+    (argBestF delta h = 0 ∧ finPart h = [] ∧ hasNinf h = false) ∨
     (0 < argBestF delta h ∧ argBestF delta h ≤ h.length ∧
-      ∃ b, bestOfF delta h = some b ∧ h.reverse[argBestF delta h - 1]? = some (.fin b)) := by
+      h.reverse[argBestF delta h - 1]? = some (bestFV delta h) ∧
+      (bestFV delta h = .ninf ∨ ∃ b, bestFV delta h = .fin b)) := by
   induction h with
-  | nil => left; exact ⟨rfl, rfl⟩
+  | nil => left; exact ⟨rfl, rfl, rfl⟩
   | cons x xs ih =>
     by_cases hx : improvesF delta x xs = true
     · right
-      obtain ⟨q, rfl⟩ := improvesF_fin_of_true delta x xs hx
-      simp only [argBestF, hx, if_true, List.length_cons, List.reverse_cons]
-      refine ⟨Nat.succ_pos _, Nat.le_refl _, q, bestOfF_cons_of_improves delta q xs hx, ?_⟩
-      rw [Nat.add_sub_cancel, List.getElem?_append_right (by simp), List.length_reverse,
-        Nat.sub_self]
-      rfl
+      simp only [argBestF, hx, if_true, List.length_cons, List.reverse_cons,
+        bestFV_cons_of_improves delta x xs hx]
+      refine ⟨Nat.succ_pos _, Nat.le_refl _, ?_, ?_⟩
+      · rw [Nat.add_sub_cancel, List.getElem?_append_right (by simp), List.length_reverse,
+          Nat.sub_self]
+        rfl
+      · rcases (improvesF_cases_of_true delta x xs hx).2 with ⟨q, rfl⟩ | rfl
+        · exact Or.inr ⟨q, rfl⟩
+        · exact Or.inl rfl
     · have hx' : improvesF delta x xs = false := by simpa using hx
       simp only [argBestF, hx', Bool.false_eq_true, if_false, List.length_cons, List.reverse_cons,
-        bestOfF_cons_of_not delta x xs hx']
-      rcases ih with ⟨h0, hn⟩ | ⟨hp, hle, b, hb, hg⟩
+        bestFV_cons_of_not delta x xs hx']
+      rcases ih with ⟨h0, hn, hi⟩ | ⟨hp, hle, hg, hb⟩
       · left
-        refine ⟨h0, ?_⟩
-        cases x with
-        | fin q => simp [improvesF, hn, bestOf, improves] at hx'
-        | nan => exact hn
-        | pinf => exact hn
-        | ninf => exact hn
+        refine ⟨h0, ?_, ?_⟩
+        · cases x with
+          | fin q => simp [improvesF, hn, hi, bestOf, improves] at hx'
+          | nan => exact hn
+          | pinf => exact hn
+          | ninf => simp [improvesF, hi] at hx'
+        · cases x with
+          | fin q => exact hi
+          | nan => exact hi
+          | pinf => exact hi
+          | ninf => simp [improvesF, hi] at hx'
       · right
-        refine ⟨hp, Nat.le_succ_of_le hle, b, hb, ?_⟩
+        refine ⟨hp, Nat.le_succ_of_le hle, ?_, hb⟩
         rw [List.getElem?_append_left (by rw [List.length_reverse]; omega)]
         exact hg
 
 /-- Loop invariant, in the style of `pLoop_spec`. -/
 theorem pLoopF_spec (patience : Nat) (delta : Q) (loss : Nat → FV Q) (m0 : Option Nat) (n : Nat)
-    (hno : ∀ e, loss e ≠ FV.ninf)
     (hstop : trailingF delta (hist loss n) > patience)
     (hfirst : ∀ m, m < n → ¬ trailingF delta (hist loss m) > patience) :
     ∀ (k : Nat) (s : FState Q), k ≤ n → k ≠ 0 → RelF delta m0 s (hist loss (k - 1)) →
@@ -456,7 +556,7 @@ theorem pLoopF_spec (patience : Nat) (delta : Q) (loss : Nat → FV Q) (m0 : Opt
     obtain ⟨f, rfl⟩ : ∃ f, fuel = f + 1 := ⟨fuel - 1, by omega⟩
     obtain ⟨k', rfl⟩ : ∃ k', k = k' + 1 := ⟨k - 1, by omega⟩
     simp only [Nat.add_sub_cancel] at hr
-    have := pStepF_relF patience delta m0 s (hist loss k') (loss k') (hno k') hr
+    have := pStepF_relF patience delta m0 s (hist loss k') (loss k') hr
     rw [hist_length] at this
     obtain ⟨hr', hv⟩ := this
     simp only [pLoopF, Nat.add_one_ne_zero, if_false, Nat.add_sub_cancel]
@@ -470,7 +570,7 @@ theorem pLoopF_spec (patience : Nat) (delta : Q) (loss : Nat → FV Q) (m0 : Opt
     obtain ⟨f, rfl⟩ : ∃ f, fuel = f + 1 := ⟨fuel - 1, by omega⟩
     obtain ⟨k', rfl⟩ : ∃ k', k = k' + 1 := ⟨k - 1, by omega⟩
     simp only [Nat.add_sub_cancel] at hr
-    have := pStepF_relF patience delta m0 s (hist loss k') (loss k') (hno k') hr
+    have := pStepF_relF patience delta m0 s (hist loss k') (loss k') hr
     rw [hist_length] at this
     obtain ⟨hr', hv⟩ := this
     simp only [pLoopF, Nat.add_one_ne_zero, if_false, Nat.add_sub_cancel]
@@ -482,12 +582,12 @@ theorem pLoopF_spec (patience : Nat) (delta : Q) (loss : Nat → FV Q) (m0 : Opt
     simp only [Bool.false_eq_true, if_false]
     exact ih (k' + 1 + 1) (by omega) _ (by omega) (by omega) (by simpa [hist] using hr') f (by omega)
 
-/-- **trainLoopF_terminates.**  For a loss stream with NaN / +inf anywhere (no `-inf`): if epoch
-`n` is the first epoch at which more than `patience` consecutive epochs (NaN / +inf epochs
-included) have failed to improve, the training loop stops exactly at epoch `n` and hands back the
-model of the last finite improvement (the initial model if there never was one). -/
+/-- **trainLoopF_terminates.**  For EVERY loss stream over the full alphabet (finite, NaN, +inf,
+-inf anywhere): if epoch `n` is the first epoch at which more than `patience` consecutive epochs
+(NaN / +inf epochs and epochs after a `-inf` included) have failed to improve, the training loop
+stops exactly at epoch `n` and hands back the model of the last improvement (the initial model if
+there never was one). -/
 theorem trainLoopF_terminates (patience : Nat) (delta : Q) (loss : Nat → FV Q) (n : Nat)
-    (hno : ∀ e, loss e ≠ FV.ninf)
     (hstop : trailingF delta (hist loss n) > patience)
     (hfirst : ∀ m, m < n → ¬ trailingF delta (hist loss m) > patience)
     (fuel : Nat) (hf : n + 1 < fuel) :
@@ -500,7 +600,7 @@ theorem trainLoopF_terminates (patience : Nat) (delta : Q) (loss : Nat → FV Q)
   obtain ⟨f, rfl⟩ : ∃ f, fuel = f + 1 := ⟨fuel - 1, by omega⟩
   unfold trainLoopF
   simp only [pLoopF, if_true, pStepF, Bool.false_eq_true, if_false, Nat.zero_add]
-  exact pLoopF_spec patience delta loss (some 0) n hno hstop hfirst 1 _ (by omega) (by omega)
+  exact pLoopF_spec patience delta loss (some 0) n hstop hfirst 1 _ (by omega) (by omega)
     (by simpa [hist] using relF_init delta (some 0)) f (by omega)
 
 /-! #### A history that is NaN / +inf from some epoch on. -/
@@ -510,7 +610,7 @@ theorem nan_tail_spec (delta : Q) (loss : Nat → FV Q) (n0 : Nat)
     (htail : ∀ e, n0 ≤ e → loss e = .nan ∨ loss e = .pinf) (k : Nat) :
     trailingF delta (hist loss (n0 + k)) = trailingF delta (hist loss n0) + k ∧
     argBestF delta (hist loss (n0 + k)) = argBestF delta (hist loss n0) ∧
-    bestOfF delta (hist loss (n0 + k)) = bestOfF delta (hist loss n0) := by
+    bestFV delta (hist loss (n0 + k)) = bestFV delta (hist loss n0) := by
   induction k with
   | zero => exact ⟨rfl, rfl, rfl⟩
   | succ k ih =>
@@ -522,16 +622,15 @@ theorem nan_tail_spec (delta : Q) (loss : Nat → FV Q) (n0 : Nat)
       simp only [trailingF, hx, Bool.false_eq_true, if_false, h1]; omega
     · show argBestF delta (loss (n0 + k) :: hist loss (n0 + k)) = _
       simp only [argBestF, hx, Bool.false_eq_true, if_false, h2]
-    · show bestOfF delta (loss (n0 + k) :: hist loss (n0 + k)) = _
-      rw [bestOfF_cons_of_not delta _ _ hx, h3]
+    · show bestFV delta (loss (n0 + k) :: hist loss (n0 + k)) = _
+      rw [bestFV_cons_of_not delta _ _ hx, h3]
 
 /-- **nan_tail_terminates.**  Training diverges: from epoch `n0 + 1` on every loss is NaN (or
 `+inf`).  If the loop has not stopped by epoch `n0` (counter `c = trailingF … ≤ patience` there), it
-stops exactly `patience + 1 - c` epochs later and hands back the model of the last finite
-improvement seen before the tail — whose loss is the tracked best of the finite losses — or the
-initial model 0 if no finite loss was ever seen. -/
+stops exactly `patience + 1 - c` epochs later and hands back the model of the last improvement
+seen before the tail — whose loss is the tracked best `bestFV` (finite, or `-inf`) — or the
+initial model 0 if no finite / `-inf` loss was ever seen. -/
 theorem nan_tail_terminates (patience : Nat) (delta : Q) (loss : Nat → FV Q) (n0 : Nat)
-    (hno : ∀ e, loss e ≠ FV.ninf)
     (htail : ∀ e, n0 ≤ e → loss e = .nan ∨ loss e = .pinf)
     (hbefore : ∀ m, m ≤ n0 → ¬ trailingF delta (hist loss m) > patience)
     (fuel : Nat) (hf : n0 + (patience + 1 - trailingF delta (hist loss n0)) + 1 < fuel) :
@@ -539,15 +638,16 @@ theorem nan_tail_terminates (patience : Nat) (delta : Q) (loss : Nat → FV Q) (
       = some (n0 + (patience + 1 - trailingF delta (hist loss n0)),
               some (argBestF delta (hist loss n0))) ∧
     argBestF delta (hist loss n0) ≤ n0 ∧
-    ((argBestF delta (hist loss n0) = 0 ∧ finPart (hist loss n0) = []) ∨
+    ((argBestF delta (hist loss n0) = 0 ∧ finPart (hist loss n0) = [] ∧
+        hasNinf (hist loss n0) = false) ∨
      (0 < argBestF delta (hist loss n0) ∧
-       ∃ b, bestOfF delta (hist loss n0) = some b ∧
-         loss (argBestF delta (hist loss n0) - 1) = .fin b)) := by
+       loss (argBestF delta (hist loss n0) - 1) = bestFV delta (hist loss n0) ∧
+       (bestFV delta (hist loss n0) = .ninf ∨ ∃ b, bestFV delta (hist loss n0) = .fin b))) := by
   have hc := hbefore n0 (Nat.le_refl _)
   have hspec := nan_tail_spec delta loss n0 htail
   refine ⟨?_, ?_, ?_⟩
   · have := trainLoopF_terminates patience delta loss
-      (n0 + (patience + 1 - trailingF delta (hist loss n0))) hno
+      (n0 + (patience + 1 - trailingF delta (hist loss n0)))
       (by rw [(hspec _).1]; omega)
       (by
         intro m hm
@@ -563,10 +663,10 @@ theorem nan_tail_terminates (patience : Nat) (delta : Q) (loss : Nat → FV Q) (
   · rcases bestF_is_loss_of_argBestF delta (hist loss n0) with ⟨h0, _⟩ | ⟨_, hle, _⟩
     · omega
     · rw [hist_length] at hle; exact hle
-  · rcases bestF_is_loss_of_argBestF delta (hist loss n0) with ⟨h0, hn⟩ | ⟨hp, hle, b, hb, hg⟩
-    · left; exact ⟨h0, hn⟩
+  · rcases bestF_is_loss_of_argBestF delta (hist loss n0) with ⟨h0, hn, hi⟩ | ⟨hp, hle, hg, hb⟩
+    · left; exact ⟨h0, hn, hi⟩
     · right
-      refine ⟨hp, b, hb, ?_⟩
+      refine ⟨hp, ?_, hb⟩
       rw [hist_length] at hle
       have := hist_reverse_getElem? loss n0 (argBestF delta (hist loss n0) - 1) (by omega)
       rw [this] at hg
@@ -575,7 +675,6 @@ theorem nan_tail_terminates (patience : Nat) (delta : Q) (loss : Nat → FV Q) (
 /-- **nan_tail_stops.**  Unconditionally: a history that is NaN / +inf from epoch `n0 + 1` on
 stops, at the latest `patience + 1` epochs into the tail, with a model from before the tail. -/
 theorem nan_tail_stops (patience : Nat) (delta : Q) (loss : Nat → FV Q) (n0 : Nat)
-    (hno : ∀ e, loss e ≠ FV.ninf)
     (htail : ∀ e, n0 ≤ e → loss e = .nan ∨ loss e = .pinf) :
     ∃ n j, 0 < n ∧ n ≤ n0 + patience + 1 ∧ j ≤ n0 ∧ j ≤ n ∧
       ∀ fuel, n + 1 < fuel → trainLoopF patience (.fin delta) loss fuel = some (n, some j) := by
@@ -604,11 +703,113 @@ theorem nan_tail_stops (patience : Nat) (delta : Q) (loss : Nat → FV Q) (n0 : 
       · rw [hist_length] at h; exact h
   refine ⟨Nat.find hex, argBestF delta (hist loss (Nat.find hex)), hpos, hle, hj0, hj, ?_⟩
   intro fuel hf
-  rw [trainLoopF_terminates patience delta loss _ hno hfind
+  rw [trainLoopF_terminates patience delta loss _ hfind
     (fun m hm => Nat.find_min hex hm) fuel hf]
   by_cases h0 : argBestF delta (hist loss (Nat.find hex)) = 0
   · simp [h0]
   · simp [h0]
+
+/-! #### `-inf` losses: the first one is the final best. -/
+
+omit [DecidableLT Q] in
+/-- `x < -inf - min_delta` holds for no `x` and no `min_delta` (`-inf - d` is `-inf` or NaN). -/
+theorem FV.not_lt_ninf_sub (x delta : FV Q) : ¬ (x < FV.ninf - delta) := by
+  cases delta with
+  | nan => exact FV.not_lt_nan x
+  | ninf => exact FV.not_lt_nan x
+  | pinf => exact FV.not_lt_ninf x
+  | fin d => exact FV.not_lt_ninf x
+
+/-- **ninf_improves.**  A `-inf` loss is taken as the new best (counter reset, model recorded) from
+every state whose best is `+inf` (the initial state) or finite, for every finite `min_delta`. -/
+theorem ninf_improves (patience : Nat) (delta : Q) (s : FState Q) (m : Nat)
+    (hs : s.best = .pinf ∨ ∃ b, s.best = .fin b) :
+    pStepF patience (.fin delta) s m (some .ninf)
+      = ({ best := .ninf, since := 0, bestModel := some m }, decide (0 > patience)) := by
+  have h1 : (FV.ninf : FV Q) < s.best - FV.fin delta := by
+    rcases hs with h | ⟨b, h⟩ <;> rw [h] <;> exact trivial
+  simp only [pStepF, if_pos h1]
+
+/-- **after_ninf_nothing_improves.**  In every state whose best loss is `-inf`, EVERY loss — finite,
+NaN, `+inf`, or `-inf` again — for EVERY `min_delta` (finite or not) leaves `best` and `best_model`
+alone and increments the counter. -/
+theorem after_ninf_nothing_improves (patience : Nat) (delta : FV Q) (s : FState Q) (m : Nat)
+    (x : FV Q) (hs : s.best = .ninf) :
+    pStepF patience delta s m (some x)
+      = ({ s with since := s.since + 1 }, decide (s.since + 1 > patience)) := by
+  simp only [pStepF, hs, if_neg (FV.not_lt_ninf_sub x delta)]
+
+omit [LT Q] [DecidableLT Q] [Sub Q] in
+theorem hasNinf_hist_of_none (loss : Nat → FV Q) (n : Nat) (h : ∀ e, e < n → loss e ≠ .ninf) :
+    hasNinf (hist loss n) = false := by
+  induction n with
+  | zero => rfl
+  | succ n ih =>
+    show hasNinf (loss n :: hist loss n) = false
+    rw [hasNinf_cons_of_ne _ _ (h n (Nat.lt_succ_self n))]
+    exact ih (fun e he => h e (Nat.lt_succ_of_lt he))
+
+/-- After the first `-inf` (epoch `n0 + 1`) the counter grows by one per epoch, whatever the losses
+are; the best epoch stays `n0 + 1` and the tracked best stays `-inf`. -/
+theorem ninf_tail_spec (delta : Q) (loss : Nat → FV Q) (n0 : Nat)
+    (hninf : loss n0 = .ninf) (hfirstninf : ∀ e, e < n0 → loss e ≠ .ninf) (k : Nat) :
+    hasNinf (hist loss (n0 + 1 + k)) = true ∧
+    trailingF delta (hist loss (n0 + 1 + k)) = k ∧
+    argBestF delta (hist loss (n0 + 1 + k)) = n0 + 1 ∧
+    bestFV delta (hist loss (n0 + 1 + k)) = .ninf := by
+  induction k with
+  | zero =>
+    have hi : improvesF delta (loss n0) (hist loss n0) = true := by
+      rw [hninf]; simp [improvesF, hasNinf_hist_of_none loss n0 hfirstninf]
+    have hh : hasNinf (hist loss (n0 + 1)) = true := by
+      show hasNinf (loss n0 :: hist loss n0) = true
+      rw [hninf]; rfl
+    refine ⟨hh, ?_, ?_, bestFV_of_hasNinf delta _ hh⟩
+    · show trailingF delta (loss n0 :: hist loss n0) = 0
+      simp [trailingF, hi]
+    · show argBestF delta (loss n0 :: hist loss n0) = n0 + 1
+      simp [argBestF, hi, hist_length]
+  | succ k ih =>
+    obtain ⟨h0, h1, h2, _⟩ := ih
+    have hx := improvesF_false_of_hasNinf delta (loss (n0 + 1 + k)) _ h0
+    have hh : hasNinf (hist loss (n0 + 1 + (k + 1))) = true :=
+      hasNinf_cons_of_true (loss (n0 + 1 + k)) _ h0
+    refine ⟨hh, ?_, ?_, bestFV_of_hasNinf delta _ hh⟩
+    · show trailingF delta (loss (n0 + 1 + k) :: hist loss (n0 + 1 + k)) = _
+      simp only [trailingF, hx, Bool.false_eq_true, if_false, h1]
+    · show argBestF delta (loss (n0 + 1 + k) :: hist loss (n0 + 1 + k)) = _
+      simp only [argBestF, hx, Bool.false_eq_true, if_false, h2]
+
+/-- **ninf_is_final_best.**  Epoch `n0 + 1` reports the FIRST `-inf` loss of a run, and the loop has
+not stopped by epoch `n0`.  Then, whatever the later losses are (finite, NaN, ±inf):
+* the `-inf` is recorded as the best loss (counter 0, best model = model of epoch `n0 + 1`),
+* no later loss improves: `k` epochs later the counter is exactly `k`, the best epoch is still
+  `n0 + 1` and the best loss still `-inf`,
+* the training loop stops after exactly `patience + 1` further epochs, at epoch
+  `n0 + 1 + (patience + 1)`, and hands back the model of epoch `n0 + 1` (the first `-inf` epoch). -/
+theorem ninf_is_final_best (patience : Nat) (delta : Q) (loss : Nat → FV Q) (n0 : Nat)
+    (hninf : loss n0 = .ninf) (hfirstninf : ∀ e, e < n0 → loss e ≠ .ninf)
+    (hbefore : ∀ m, m ≤ n0 → ¬ trailingF delta (hist loss m) > patience) :
+    (∀ fuel, n0 + 1 + (patience + 1) + 1 < fuel →
+      trainLoopF patience (.fin delta) loss fuel = some (n0 + 1 + (patience + 1), some (n0 + 1))) ∧
+    (∀ k, trailingF delta (hist loss (n0 + 1 + k)) = k ∧
+          argBestF delta (hist loss (n0 + 1 + k)) = n0 + 1 ∧
+          bestFV delta (hist loss (n0 + 1 + k)) = .ninf) ∧
+    (∀ k x, improvesF delta x (hist loss (n0 + 1 + k)) = false) := by
+  have hspec := ninf_tail_spec delta loss n0 hninf hfirstninf
+  refine ⟨?_, fun k => (hspec k).2, fun k x => improvesF_false_of_hasNinf delta x _ (hspec k).1⟩
+  intro fuel hf
+  have := trainLoopF_terminates patience delta loss (n0 + 1 + (patience + 1))
+    (by rw [(hspec _).2.1]; omega)
+    (by
+      intro m hm
+      by_cases hmn : m ≤ n0
+      · exact hbefore m hmn
+      · obtain ⟨k, rfl⟩ : ∃ k, m = n0 + 1 + k := ⟨m - (n0 + 1), by omega⟩
+        rw [(hspec k).2.1]; omega)
+    fuel hf
+  rw [this, (hspec _).2.2.1]
+  simp
 
 end Spec
 
@@ -672,7 +873,6 @@ example : (pRunF (Q := Int) 1 (.fin 0) (FState.init none) 1
 example : trainLoopF (Q := Int) 2 (.fin 0) (fun n => [FV.fin 3, FV.fin 2].getD n FV.nan) 12
     = some (5, some 2) :=
   (nan_tail_terminates 2 0 (fun n => [FV.fin 3, FV.fin 2].getD n FV.nan) 2
-    (by intro e; rcases e with _ | _ | e <;> simp)
     (by intro e he; obtain ⟨k, rfl⟩ : ∃ k, e = k + 2 := ⟨e - 2, by omega⟩; left; simp)
     (by decide) 12 (by decide)).1
 -- diverged from the very first epoch: stops after patience + 1 epochs with the initial model
@@ -681,5 +881,29 @@ example : trainLoopF (Q := Int) 2 (.fin 0) (fun _ => FV.nan) 12 = some (3, some 
 example : trailingF (0 : Int) (hist (fun n => [FV.fin 3, FV.nan, FV.fin 2, FV.nan].getD n FV.pinf) 5) > 1 ∧
     ∀ m, m < 5 → ¬ trailingF (0 : Int) (hist (fun n => [FV.fin 3, FV.nan, FV.fin 2, FV.nan].getD n FV.pinf) m) > 1 := by
   decide
+
+-- `-inf` losses.  3, -inf, 1, -inf, nan (chronological), patience 1: the first -inf (epoch 2) is the
+-- last improvement; verdicts F F F T T; best model – 1 2 2 2 2; best loss ends as -inf
+example : (pRunF (Q := Int) 1 (.fin 0) (FState.init none) 1
+      [some (.fin 3), some .ninf, some (.fin 1), some .ninf, some .nan]).2 = [false, false, false, true, true] ∧
+    (pRunF (Q := Int) 1 (.fin 0) (FState.init none) 1
+      [some (.fin 3), some .ninf, some (.fin 1), some .ninf, some .nan]).1.bestModel = some 2 ∧
+    trailingF (0 : Int) [.nan, .ninf, .fin 1, .ninf, .fin 3] = 3 ∧
+    argBestF (0 : Int) [.nan, .ninf, .fin 1, .ninf, .fin 3] = 2 ∧
+    hasNinf ([.nan, .ninf, .fin 1, .ninf, .fin 3] : List (FV Int)) = true := by decide
+-- the hypotheses of `ninf_is_final_best` are met: losses 3, 2, -inf, then 0 for ever; n0 = 2, patience 2:
+-- stops at epoch 3 + 3 = 6 with the model of epoch 3
+example : trainLoopF (Q := Int) 2 (.fin 0) (fun n => [FV.fin 3, FV.fin 2, FV.ninf].getD n (FV.fin 0)) 12
+    = some (6, some 3) :=
+  (ninf_is_final_best 2 0 (fun n => [FV.fin 3, FV.fin 2, FV.ninf].getD n (FV.fin 0)) 2 rfl
+    (by intro e he; rcases e with _ | _ | e <;> first | omega | simp)
+    (by decide)).1 12 (by decide)
+-- -inf at the very first epoch, then -inf for ever: stops after patience + 1 further epochs, model 1
+example : trainLoopF (Q := Int) 2 (.fin 0) (fun _ => FV.ninf) 12 = some (4, some 1) := by decide
+-- `ninf_improves` / `after_ninf_nothing_improves` on concrete states
+example : pStepF (Q := Int) 1 (.fin 1) ⟨.fin 5, 1, some 2⟩ 7 (some .ninf) = (⟨.ninf, 0, some 7⟩, false) :=
+  ninf_improves 1 1 ⟨.fin 5, 1, some 2⟩ 7 (Or.inr ⟨5, rfl⟩)
+example : pStepF (Q := Int) 1 (.fin 1) ⟨.ninf, 1, some 2⟩ 7 (some .ninf) = (⟨.ninf, 2, some 2⟩, true) :=
+  after_ninf_nothing_improves 1 (.fin 1) ⟨.ninf, 1, some 2⟩ 7 .ninf rfl
 
 end GinjaxVerif.C19
